@@ -9,7 +9,10 @@ correspond: Simplifier.uniq_sort and helper.tsort against the model under explic
             dict order (line protocol)
 search    : the property's own oracle on the real code: the same cases in subprocesses under different
             PYTHONHASHSEED and processing orders, byte-compared (parse / sql / transpile / optimize / qualify / annotate /
-            lineage / simplify / normalize); fresh vs reused Parser / Tokenizer / Generator / Dialect / MappingSchema
+            lineage / simplify / normalize); a family of order-sensitive cases (near-variant pairs differing only in the case of
+            strings / placeholder names / quoted identifiers or in whitespace, direct Generator/Parser/Tokenizer(dialect=…)
+            constructions, user-defined Dialect subclasses and settings-string dialects) compared with the result of a
+            brand-new process, a differing case is replayed with the minimised history that causes it; fresh vs reused Parser / Tokenizer / Generator / Dialect / MappingSchema
             objects in one process, including reuse after an exception in the middle of a call; interleaved dialects.
             The AST diff's Keep/Move order is excluded as the property says (diff is not called).
 """
@@ -46,6 +49,7 @@ THEOREMS = [NS + n for n in [
     "generator_reuse_eq_fresh_partial",
     "generator_next_name_restarts",
     "generator_next_name_snapshot_witness",
+    "process_wide_state_ok",
 ]]
 
 # fields a call writes but hands back itself (not through reset): justified next to the theorem that uses them
@@ -144,6 +148,116 @@ def extract(chk=None):
     return res
 
 
+PW_MUT = {"add", "append", "update", "setdefault", "pop", "clear", "extend", "insert", "remove", "discard", "popitem"}
+
+
+def _local_names(fn):
+    names = {a.arg for a in fn.args.args + fn.args.kwonlyargs + fn.args.posonlyargs}
+    if fn.args.vararg:
+        names.add(fn.args.vararg.arg)
+    if fn.args.kwarg:
+        names.add(fn.args.kwarg.arg)
+    globs = set()
+    for n in ast.walk(fn):
+        if isinstance(n, ast.Global):
+            globs |= set(n.names)
+    for n in ast.walk(fn):
+        if isinstance(n, ast.Name) and isinstance(n.ctx, ast.Store) and n.id not in globs:
+            names.add(n.id)
+    return names, globs
+
+
+def _chain(node):
+    parts = []
+    while isinstance(node, ast.Attribute):
+        parts.append(node.attr)
+        node = node.value
+    if isinstance(node, ast.Name):
+        parts.append(node.id)
+    elif isinstance(node, ast.Call) and isinstance(node.func, ast.Name) and node.func.id in ("globals", "type"):
+        parts.append(node.func.id + "()")
+    else:
+        return None
+    return list(reversed(parts))
+
+
+def process_wide_state():
+    """every place where code that runs AFTER import writes state shared by the whole process: module-level names mutated
+    inside a function, class attributes written through cls / type(self) / ClassName, globals()[...], `global` rebinding,
+    functools caches, and anything named *_CACHE.  (file, name, kind, writer)"""
+    out = set()
+    for path in sorted(glob.glob(os.path.join(REPO, "sqlglot", "**", "*.py"), recursive=True)):
+        rel = os.path.relpath(path, REPO)
+        t = ast.parse(open(path, encoding="utf-8").read())
+        modnames = set()
+        for st in t.body:
+            if isinstance(st, (ast.Assign, ast.AnnAssign, ast.AugAssign)):
+                for n in ast.walk(st):
+                    if isinstance(n, ast.Name) and isinstance(n.ctx, ast.Store):
+                        modnames.add(n.id)
+            if isinstance(st, (ast.Assign, ast.AnnAssign)):
+                tg = st.targets[0] if isinstance(st, ast.Assign) else st.target
+                if isinstance(tg, ast.Name) and tg.id.upper().endswith("_CACHE"):
+                    out.add((rel, tg.id, "named-cache", "<module>"))
+
+        def scan(fn, name):
+            loc, globs = _local_names(fn)
+            for n in ast.walk(fn):
+                tgt = None
+                attr_store = False
+                if isinstance(n, ast.Subscript) and isinstance(n.ctx, (ast.Store, ast.Del)):
+                    tgt = n.value
+                elif isinstance(n, ast.Call) and isinstance(n.func, ast.Attribute) and n.func.attr in PW_MUT:
+                    tgt = n.func.value
+                elif isinstance(n, ast.Attribute) and isinstance(n.ctx, (ast.Store, ast.Del)):
+                    tgt, attr_store = n, True
+                elif isinstance(n, ast.Name) and isinstance(n.ctx, ast.Store) and n.id in globs:
+                    out.add((rel, n.id, "global-rebind", name))
+                    continue
+                if tgt is None:
+                    continue
+                ch = _chain(tgt)
+                if not ch:
+                    continue
+                classy = len(ch) >= 2 and (ch[0] in ("cls", "type()") or (ch[0] == "self" and ch[1] == "__class__")
+                                           or (ch[0] in modnames and ch[0] not in loc and ch[0][:1].isupper())
+                                           or (not attr_store and ch[0] == "klass"))
+                if attr_store:
+                    if classy:
+                        out.add((rel, ".".join(ch), "class-attr", name))
+                elif len(ch) == 1 and ch[0] in modnames and ch[0] not in loc:
+                    out.add((rel, ch[0], "module-global", name))
+                elif ch[0] == "globals()":
+                    out.add((rel, "globals()", "module-namespace", name))
+                elif classy:
+                    out.add((rel, ".".join(ch), "class-attr", name))
+
+        def walk(node, prefix, infn):
+            for ch in ast.iter_child_nodes(node):
+                if isinstance(ch, (ast.FunctionDef, ast.AsyncFunctionDef)):
+                    name = prefix + ch.name
+                    for d in ch.decorator_list:
+                        dn = d.func if isinstance(d, ast.Call) else d
+                        nm = dn.id if isinstance(dn, ast.Name) else dn.attr if isinstance(dn, ast.Attribute) else ""
+                        if nm in ("lru_cache", "cache"):
+                            out.add((rel, name, "functools." + nm, name))
+                    if not infn:
+                        scan(ch, name)
+                    walk(ch, name + ".", True)
+                elif isinstance(ch, ast.ClassDef):
+                    for st in ch.body:
+                        if isinstance(st, (ast.Assign, ast.AnnAssign)):
+                            tg = st.targets[0] if isinstance(st, ast.Assign) else st.target
+                            if isinstance(tg, ast.Name) and tg.id.upper().endswith("_CACHE"):
+                                out.add((rel, ch.name + "." + tg.id, "named-cache", "<class>"))
+                    walk(ch, prefix + ch.name + ".", infn)
+                else:
+                    walk(ch, prefix, infn)
+
+        walk(t, "", False)
+    return sorted(out)
+
+
 def translate(chk) -> str:
     r = extract(chk)
     chk.cov["state_fields"] = {k: len(v) for k, v in r.items()}
@@ -153,6 +267,12 @@ def translate(chk) -> str:
         L.append(f"def {k} : List (String × String) := " + lean_list("(" + lean_str(a) + ", " + lean_str(b) + ")" for a, b in r[k]))
     for k in ("parserWritten", "tokenizerWritten", "generatorWritten"):
         L.append(f"def {k} : List String := " + lean_list(lean_str(a) for a in r[k]))
+    pw = process_wide_state()
+    chk.cov["process_wide_state_sites"] = len(pw)
+    L.append("/-- (file, name, kind, writer): state shared by the whole process that code running after import writes -/")
+    L.append("def processWideState : List (String × String × String × String) := [")
+    L += ["  (" + ", ".join(lean_str(x) for x in e) + ")" + ("," if i + 1 < len(pw) else "") for i, e in enumerate(pw)]
+    L.append("]")
     L += ["end SqlglotModel.Generated.C15", ""]
     return "\n".join(L)
 
@@ -222,6 +342,50 @@ def correspond(chk) -> list:
 SCHEMA = {"x": {"a": "INT", "b": "INT", "c": "TEXT"}, "y": {"a": "INT", "b": "INT", "d": "DATE"}, "z": {"a": "INT", "e": "DOUBLE"}}
 
 
+_CUSTOM: dict = {}
+
+
+def custom_dialect(which):
+    """user-defined dialects (harness side): they share generator / parser / tokenizer classes with a built-in dialect but
+    differ in their tables, or are given as settings strings"""
+    if which in _CUSTOM:
+        return _CUSTOM[which]
+    from sqlglot.dialects.dialect import Dialect
+    from sqlglot.dialects.mysql import MySQL
+    from sqlglot.dialects.postgres import Postgres
+    from sqlglot.dialects.duckdb import DuckDB
+    from sqlglot import generator as G
+
+    if which.startswith("settings:"):
+        d = Dialect.get_or_raise(which[len("settings:"):])
+    elif which == "mysql_dq":       # MySQL's generator class, but identifiers are double-quoted
+        class MySqlDQ(MySQL):
+            class Tokenizer(MySQL.Tokenizer):
+                IDENTIFIERS = ['"']
+                QUOTES = ["'"]
+        d = MySqlDQ
+    elif which == "pg_bt":          # Postgres' generator class, but identifiers use backticks and backslash escapes
+        class PgBT(Postgres):
+            class Tokenizer(Postgres.Tokenizer):
+                IDENTIFIERS = ["`"]
+                STRING_ESCAPES = ["\\", "'"]
+        d = PgBT
+    elif which == "base_bt":        # the base Generator / Parser classes with a backtick tokenizer
+        class BaseBT(Dialect):
+            class Tokenizer(Dialect.tokenizer_class):
+                IDENTIFIERS = ["`"]
+        d = BaseBT
+    elif which == "duck_gen":       # only the Generator is overridden
+        class DuckGen(DuckDB):
+            class Generator(DuckDB.Generator):
+                NULL_ORDERING_SUPPORTED = None
+        d = DuckGen
+    else:
+        raise ValueError(which)
+    _CUSTOM[which] = d
+    return d
+
+
 def run_case(op, a):
     import sqlglot
     from sqlglot import parse_one
@@ -250,6 +414,19 @@ def run_case(op, a):
         return "|".join(f"{n.name}<-{n.source.sql()}<-{n.expression.sql()}" for n in node.walk())
     if op == "simplify":
         return simplify(parse_one(a["sql"])).sql()
+    if op == "gen_direct":      # the Generator class instantiated directly with a dialect argument
+        from sqlglot.generator import Generator
+        return Generator(dialect=a.get("write"), identify=True).generate(parse_one(a["sql"]))
+    if op == "parser_direct":
+        from sqlglot.parser import Parser
+        from sqlglot.tokens import Tokenizer
+        toks = Tokenizer(dialect=a.get("read")).tokenize(a["sql"])
+        trees = Parser(dialect=a.get("read")).parse(toks, a["sql"])
+        return json.dumps([[t.token_type.name, t.text] for t in toks]) + json.dumps([t.dump() if t else None for t in trees])
+    if op == "custom":
+        d = custom_dialect(a["which"])
+        e = parse_one(a["sql"], read=d)
+        return e.sql(dialect=d, identify=True) + " || " + e.sql(dialect=d) + " || " + str(sqlglot.transpile(a["sql"], read=d, write=d))
     if op == "tsort":
         from sqlglot.helper import tsort
         try:
@@ -356,6 +533,95 @@ def build_cases(chk, n_pred, n_query, n_stmt):
         cases.append([f"parse{i}", "parse", {"sql": s, "read": rd}])
         cases.append([f"transpile{i}", "transpile", {"sql": s, "read": rd, "write": wr, "pretty": rng.random() < 0.3}])
     return cases
+
+
+ATOMS_V = ["JSON_EXTRACT(x.c, '$.B') = 1", "JSON_EXTRACT(x.c, '$.a') = 1", ":Pb = x.a", ":pa = x.a", "x.c = 'B'", "x.c = 'a'",
+           "x.c LIKE 'Ab%'", "x.c = @Var", 'x."Col" = 1', ":Zed = x.b", "x.a = ?", "LOWER(x.c) = 'c'", "x.c IN ('Q', 'r')"]
+# pairs of operands whose relative order in sorted text flips when the case of the first one's string / name is flipped
+FLIP_PAIRS = [(":Pb = x.a", ":pa = x.a"), ("JSON_EXTRACT(x.c, '$.B') = 1", "JSON_EXTRACT(x.c, '$.a') = 1"), ("x.c = 'B'", "x.c = 'a'"),
+              ('x."Col" = 1', 'x."bol" = 1'), ("x.c = @Var", "x.c = @uar"), ("x.c LIKE 'Ab%'", "x.c LIKE 'aa%'"),
+              ("JSON_EXTRACT(x.c, '$.Key.Z') IS NULL", "JSON_EXTRACT(x.c, '$.Key.y') IS NULL")]
+QUOTE_SQL = ['SELECT a AS "b c", \'it\'\'s\' AS s FROM t WHERE "x y" = 1', "SELECT a.b AS c, 'x\\y' FROM db.t AS a", 'SELECT "A", b FROM "T"']
+
+
+def case_variant(sql, rng, all_=False):
+    """a near-variant of a statement: same structure, strings / placeholder names / quoted identifiers differ only in case"""
+    def flip(m):
+        return m.group(0).swapcase() if (all_ or rng.random() < 0.6) else m.group(0)
+    return re.sub(r"'[^']*'|\"[^\"]*\"|(?<=[:@])[A-Za-z_]\w*", flip, sql)
+
+
+def build_family(chk, n_var):
+    """cases whose result must equal what a FRESH process gives, whatever ran before: near-variant pairs (process-wide memo
+    tables keyed by something coarser than the real identity), direct Generator/Parser/Tokenizer(dialect=…) constructions
+    and user-defined dialects (state cached per class instead of per dialect)"""
+    rng = chk.rng
+    fam = []
+    for i in range(n_var):
+        atoms = list(rng.choice(FLIP_PAIRS)) + rng.sample(ATOMS_V, rng.choice([0, 0, 1, 2]))
+        rng.shuffle(atoms)
+        op = rng.choice(["AND", "OR"])
+        pred = f" {op} ".join(atoms)
+        if rng.random() < 0.3:
+            pred = f"({pred}) {'OR' if op == 'AND' else 'AND'} {rng.choice(ATOMS_V)}"
+        va, vb = pred, case_variant(pred, rng, all_=rng.random() < 0.7)
+        if va == vb:
+            vb = case_variant(pred, rng, all_=True)
+        kind = rng.choice(["simplify", "simplify", "cnf", "optimize", "sql"])
+        for tag, v in (("a", va), ("b", vb), ("c", "  ".join(va.split(" ")))):
+            if kind == "optimize":
+                fam.append([f"var{i}{tag}", "optimize", {"sql": f"SELECT x.a FROM x WHERE {v}"}])
+            elif kind == "sql":
+                fam.append([f"var{i}{tag}", "sql", {"sql": f"SELECT x.a FROM x WHERE {v}", "read": None, "write": rng.choice([None, "duckdb", "snowflake"]), "pretty": False}])
+            else:
+                fam.append([f"var{i}{tag}", kind, {"sql": v}])
+    j = 0
+    for sql in QUOTE_SQL:
+        for d in ("mysql", "postgres", None, "bigquery", "tsql", "snowflake"):
+            fam.append([f"gdir{j}", "gen_direct", {"sql": sql, "write": d}])
+            fam.append([f"pdir{j}", "parser_direct", {"sql": sql, "read": d}])
+            j += 1
+    for which, sql in (("mysql_dq", 'SELECT "a b" FROM t'), ("pg_bt", "SELECT `a b`, 'x' FROM t"), ("base_bt", "SELECT `a b` FROM t"),
+                       ("duck_gen", "SELECT a FROM t ORDER BY a NULLS FIRST"), ("settings:mysql, normalization_strategy = case_sensitive", "SELECT `Ab` FROM T"),
+                       ("settings:snowflake, normalization_strategy = lowercase", 'SELECT Ab, "Cd" FROM T')):
+        fam.append([f"cust{j}", "custom", {"which": which, "sql": sql}])
+        fam.append([f"custref{j}", "sql", {"sql": sql.replace("`", '"'), "read": None, "write": which.split(":")[-1].split(",")[0] if which.startswith("settings:") else {"mysql_dq": "mysql", "pg_bt": "postgres", "base_bt": None, "duck_gen": "duckdb"}[which], "pretty": False}])
+        j += 1
+    return fam
+
+
+def fresh_reference(cases, hashseed=0, width=8):
+    """each case alone in a brand-new process"""
+    ref = {}
+    for i in range(0, len(cases), width):
+        batch = [(c, spawn([c], [0], hashseed)) for c in cases[i:i + width]]
+        for c, (p, path) in batch:
+            ref[c[0]] = collect(p, path).get(c[0])
+    return ref
+
+
+def minimise_history(prefix, case, fresh_out, hashseed, budget_s=10.0):
+    """bisect the cases that ran before `case` down to a small history after which its output still differs from fresh"""
+    t0 = time.time()
+
+    def differs(hist):
+        cs = hist + [case]
+        p, path = spawn(cs, list(range(len(cs))), hashseed)
+        return collect(p, path).get(case[0]) != fresh_out
+
+    cur = list(prefix)
+    while len(cur) > 1 and time.time() - t0 < budget_s:
+        h = len(cur) // 2
+        a, b = cur[:h], cur[h:]
+        pa, pb = spawn(a + [case], list(range(len(a) + 1)), hashseed), spawn(b + [case], list(range(len(b) + 1)), hashseed)
+        ra, rb = collect(*pa).get(case[0]) != fresh_out, collect(*pb).get(case[0]) != fresh_out
+        if rb:
+            cur = b
+        elif ra:
+            cur = a
+        else:
+            break
+    return cur if differs(cur) else list(prefix)
 
 
 def spawn(cases, order, hashseed):
@@ -549,6 +815,10 @@ def search(chk, hints, budget_s):
     rng = chk.rng
     t0 = time.time()
     cases = build_cases(chk, chk.pick(60, 600), chk.pick(30, 250), chk.pick(60, 600))
+    family = build_family(chk, chk.pick(24, 160))
+    # the family is spread over the history so that variants / other dialects run both before and after each other
+    for c in family:
+        cases.insert(rng.randrange(len(cases) + 1), c)
     ids = list(range(len(cases)))
     configs = [(0, ids)]
     for hs in chk.pick([1, 2], [1, 2, 3, 77, 12345]):
@@ -559,16 +829,23 @@ def search(chk, hints, budget_s):
     configs.append((0, sorted(ids, key=lambda i: (cases[i][1], rng.random()))))  # same seed, other order: history only
     diffs, outs = sweep(chk, cases, configs)
     by_id = {c[0]: c for c in cases}
+    fam_ids = {c[0] for c in family}
+    reported: set = set()
     for c in cases:
         chk.count("sweep:" + c[1])
         chk.case(("sweep", c[1], c[2]), nontrivial=not str(outs[0].get(c[0], "")).startswith("EXC"))
     chk.count("sweep:exc-cases", sum(1 for v in outs[0].values() if str(v).startswith("EXC")))
-    for cid, vals in list(diffs.items())[:5]:
+    for cid, vals in list(diffs.items())[:8]:
+        if len(reported) >= 4:
+            break
         _, op, a = by_id[cid]
         first = next(i for i, v in enumerate(vals) if v != vals[0])
         same_seed_other_order = configs[first][0] == configs[0][0]
         # confirm in isolation: the single case under the two hash seeds
         solo, _ = sweep(chk, [by_id[cid]], [(configs[0][0], [0]), (configs[first][0], [0])])
+        if not solo and cid in fam_ids:
+            continue  # depends on what ran before: reported below with the history that causes it
+        reported.add(cid)
         why = "hash-seed" if solo else ("history/order" if same_seed_other_order or not solo else "hash-seed")
         small = by_id[cid]
         if solo and op != "tsort":
@@ -589,8 +866,41 @@ def search(chk, hints, budget_s):
                              {"kind": "sweep", "case": small, "original": by_id[cid][2]["sql"], "hashseeds": [configs[0][0], configs[first][0]],
                               "orders_differ": True, "outputs": [str(vals[0])[:300], str(vals[first])[:300]], "isolated_repro": bool(solo)},
                              {"op": op, "why": why})
+    # --- every family case against a brand-new process: what ran earlier in the same process must not matter
+    ref = fresh_reference(family, configs[0][0])
+    hist_found = 0
+    for c in family:
+        chk.count("fresh-ref:" + c[1])
+        cid = c[0]
+        if cid in reported or hist_found >= 3:
+            continue  # already reported above / enough replays
+        for ci, (hs, order) in enumerate(configs):
+            got = outs[ci].get(cid)
+            if got == ref[cid]:
+                continue
+            pos = order.index(next(i for i in ids if cases[i][0] == cid))
+            prefix = [cases[i] for i in order[:pos]]
+            stem = re.sub(r"[abc]$", "", cid)
+            sibs = [x for x in prefix if x[0] != cid and re.sub(r"[abc]$", "", x[0]) == stem]
+            hist = None
+            for cand in ([[x] for x in sibs] + ([sibs] if len(sibs) > 1 else [])):
+                pr, path = spawn(cand + [c], list(range(len(cand) + 1)), hs)
+                if collect(pr, path).get(cid) != ref[cid]:
+                    hist = cand  # a near-variant that ran earlier is enough
+                    break
+            if hist is None:
+                hist = minimise_history(prefix, c, ref[cid], hs)
+            hist_found += 1
+            prev = hist[-1] if hist else None
+            chk.report_violation(
+                f"history:{c[1]}:{abstract_sql(c[2]['sql'])}|after:{prev[1] if prev else '-'}:{abstract_sql(prev[2]['sql']) if prev else '-'}",
+                f"{c[1]} answers {str(got)[:100]!r} after {len(hist)} earlier call(s) in the same process, {str(ref[cid])[:100]!r} in a fresh process",
+                {"kind": "history", "history": hist, "case": c, "hashseed": hs, "fresh": str(ref[cid])[:400], "in_history": str(got)[:400]},
+                {"op": c[1], "why": "history"})
+            break
     n, found = reuse_checks(chk, max(4.0, budget_s - (time.time() - t0)))
     chk.search_info = {"ran": True, "budget_s": budget_s, "sweep_cases": len(cases), "subprocesses": len(configs),
+                       "family_cases_vs_fresh_process": len(family), "history_differences": hist_found,
                        "hashseeds": [c[0] for c in configs], "differing_cases": len(diffs), "reuse_calls": n, "reuse_differences": found,
                        "oracle": "byte-identical outputs across PYTHONHASHSEED values and processing orders; reused Parser/Tokenizer/Generator/"
                                  "Dialect/MappingSchema answers equal a fresh object's (also after an exception in the middle of a call)"}
@@ -607,6 +917,8 @@ def run(chk) -> None:
         "Generator.identify / _quote_json_path_key_using_brackets are toggled and restored by the writer on the normal path only",
         "every other set/dict iteration in the optimizer is covered by the hash-seed sweep only (sampled)",
         "the AST diff (Keep/Move order) is excluded by the property",
+        "process-wide state: the writers found by the translator equal the audited allow-list (process_wide_state_ok); what the "
+        "audited registries/caches do to results is covered by the fresh-process sweep (sampled)",
     ]
     chk.write_generated(translate(chk))
     proved = chk.prove(MODULES, "Properties.C15", THEOREMS)
@@ -617,7 +929,7 @@ def run(chk) -> None:
         if proved:
             raise
         chk.note(f"model driver unavailable ({e}); continuing with the search on the real code")
-    budget = chk.pick(30, 300)
+    budget = chk.pick(38, 300)
     if chk.broken:
         budget *= 2
     search(chk, hints, budget)
@@ -630,6 +942,14 @@ def replay(path: str) -> int:
     if not r:
         print(json.dumps(rec, indent=1)[:4000])
         return 1
+    if r["kind"] == "history":
+        cs = r["history"] + [r["case"]]
+        p, path = spawn(cs, list(range(len(cs))), r["hashseed"])
+        got = collect(p, path).get(r["case"][0])
+        p, path = spawn([r["case"]], [0], r["hashseed"])
+        fresh = collect(p, path).get(r["case"][0])
+        print("replay:", f"VIOLATES: after the history {got!r}, fresh {fresh!r}" if got != fresh else "holds")
+        return 1 if got != fresh else 0
     if r["kind"] == "sweep":
         class _C:  # minimal stand-in
             pass
